@@ -89,8 +89,8 @@ theorem claimed_ops_hand_out_no_shared_member :
     ∀ r ∈ rows, r.claimed = true → r.argWrites = [] := by
   decide +kernel
 
-/-- non-vacuity of the interprocedural column: the analysis does find such call sites (the normalising ones) in claimed operations,
-    and it does find genuine hand-outs in operations that are not claimed (constructors filling their own members) -/
+/-- non-vacuity of the interprocedural column: the analysis does find hand-outs of data members to storing callees in claimed
+    operations -- the normalising ones, listed in `argNormalise` -/
 example : (rows.any (fun r => r.claimed && !r.argNormalise.isEmpty)) = true := by decide +kernel
 
 /-- non-vacuity: the claimed set is large, and the excluded random draws are exactly where writes (to the caller's generator) occur -/
